@@ -14,7 +14,7 @@ import (
 	"time"
 )
 
-var restartEvery = 100
+var restartEvery = 0
 
 func init() {
 	if v := os.Getenv("GOSYM_RESTART"); v != "" {
